@@ -218,7 +218,7 @@ def corpus():
         ('sync-steps-only', dict(classes=[[S(['o', 'u', 'l1', 'x1', 'c0'], 'next'), S(['o'])], [S(['o'])]], cbs=[['o']], top=[0, 0])),
     ]
     for name, scn in list(out):
-        if any(not any(a == 'a' or a[0] == 'i' for a in c) for c in scn['cbs']):
+        if scn['cbs']:
             out.append((name + '+marked', dict(scn, cbmark=list(range(len(scn['cbs']))))))
     return out
 
